@@ -34,6 +34,7 @@ from fsa.source import AnchorMissing, Unsupported, stmt_key, text
 from fsa.cfg import raised_class
 from fsa.match import Unknown
 from rules.solver_common import (
+    FalsyLimit,
     position_cmp,
     SolverShape,
     offset_source_index,
@@ -60,6 +61,9 @@ def r1_reject_first(R, shapes) -> None:
     for sh in shapes:
         try:
             t = sh.minmax_test()
+        except FalsyLimit as e:
+            R.violation(sh.q, 'limits-check-skipped-for-zero', str(e), where=sh.fi.where)
+            continue
         except AnchorMissing:
             R.require(sh.q, 0, 'rejection of min_iter > max_iter', fi=sh.fi, pred=pred_compare_names('min_iter', 'max_iter'))
             continue
@@ -597,8 +601,12 @@ def r1_solve(R) -> None:
         fi = R.repo.func(q)
         cfg = CFG(fi.node, fsic_hierarchy(R.repo))
         R.saw_function(fi, cfg)
-        want = cmp_of(expr('min_iter > max_iter')).as_int()
-        ts = [n for n in cfg.nodes if n.kind == 'test' and cmp_of(n.ast) is not None and cmp_of(n.ast).as_int() == want]
+        from rules.solver_common import FalsyLimit, minmax_conjunct
+        try:
+            ts = [n for n in cfg.nodes if n.kind == 'test' and minmax_conjunct(n.ast) is not None]
+        except FalsyLimit as e:
+            R.violation(q, 'limits-check-skipped-for-zero', str(e), where=fi.where)
+            continue
         if not R.require(q, len(ts), 'rejection of min_iter > max_iter', fi=fi, pred=pred_compare_names('min_iter', 'max_iter')):
             continue
         t = ts[0]
